@@ -108,6 +108,21 @@ def histories(tier, seed):
         out.append((ini, sr.random_history(rng, rng.randint(3, 8), model_of(ini),
                                            names=['a', 'b', 'c', 'd'],
                                            tpls=('T1', 'T2', 'T3', 'T4', 'T5'), max_comps=4)))
+    # bare glob declarations ({'*': {}}): a branch that loses its last child has
+    # neither children nor a sub-schema.  Variables-only compartments cannot be
+    # expressed there (nobody declares their variable), so no add operations.
+    nbare = 120 if tier == 'quick' else 1200
+    k = 0
+    while k < nbare:
+        ini = rng.choice(INITIALS[1:])
+        h = sr.random_history(rng, rng.randint(2, 6), model_of(ini), names=['a', 'b', 'c'],
+                              tpls=('T1', 'T2', 'T3', 'T4'), max_comps=3)
+        if any(o['op'] in ('add', 'addex', 'adddel') for o in h):
+            continue
+        h = [dict(o) for o in h]
+        h[0]['bare'] = True
+        out.append((ini, h))
+        k += 1
     return out
 
 
